@@ -4,6 +4,7 @@ package main
 
 import (
 	"fmt"
+	"os"
 	"go/ast"
 	"go/token"
 	"go/types"
@@ -98,6 +99,94 @@ func (ex *Exec) runAnchors(st *State, s ast.Stmt, kind string) {
 
 func normSpace(s string) string { return strings.Join(strings.Fields(s), " ") }
 
+// mergeNormals merges the normal-completion flows of a branching statement
+// into one state (path merging), when that is possible.
+func (ex *Exec) mergeNormals(prefix int, fl []flow) []flow {
+	var normals []flowOut
+	var rest []flow
+	for _, f := range fl {
+		if f.kind == flowNormal && !f.st.dead {
+			normals = append(normals, flowOut{st: f.st})
+		} else if f.kind != flowDead {
+			rest = append(rest, f)
+		}
+	}
+	if len(normals) < 2 || os.Getenv("GOVC_NOMERGE") != "" {
+		return fl
+	}
+	if !canMerge(prefix, normals) {
+		return fl
+	}
+	m, _ := ex.mergeStates(prefix, normals, 0)
+	m.path = append(append([]string(nil), normals[0].st.path[:min(len(normals[0].st.path), commonPath(normals))]...), "M")
+	return append(rest, flow{kind: flowNormal, st: m})
+}
+
+func commonPath(outs []flowOut) int {
+	n := len(outs[0].st.path)
+	for _, o := range outs[1:] {
+		k := 0
+		for k < n && k < len(o.st.path) && o.st.path[k] == outs[0].st.path[k] {
+			k++
+		}
+		n = k
+	}
+	return n
+}
+
+func canMerge(prefix int, outs []flowOut) bool {
+	first := outs[0].st
+	for _, o := range outs {
+		if len(o.st.pc) < prefix {
+			return false
+		}
+	}
+	for _, o := range outs[1:] {
+		s := o.st
+		if len(s.held) != len(first.held) || len(s.frames) != len(first.frames) || len(s.lastUnlock) != len(first.lastUnlock) {
+			return false
+		}
+		for k := range first.held {
+			if _, ok := s.held[k]; !ok {
+				return false
+			}
+		}
+		for k, lu := range first.lastUnlock {
+			if s.lastUnlock[k] != lu {
+				return false
+			}
+		}
+		for i := range first.frames {
+			if len(first.frames[i].defers) != len(s.frames[i].defers) {
+				return false
+			}
+			for j := range first.frames[i].defers {
+				if first.frames[i].defers[j] != s.frames[i].defers[j] {
+					return false
+				}
+			}
+		}
+		for k, v := range first.vars {
+			w, ok := s.vars[k]
+			if !ok {
+				continue
+			}
+			if (v.Term == nil || w.Term == nil) && v != w {
+				return false
+			}
+			if v.Term != nil && w.Term != nil && v.Term.S != w.Term.S {
+				return false
+			}
+		}
+		for k, v := range first.held {
+			if s.held[k].snap != v.snap {
+				return false
+			}
+		}
+	}
+	return true
+}
+
 func (ex *Exec) stmt1(st *State, s ast.Stmt, label string) []flow {
 	switch s := s.(type) {
 	case *ast.EmptyStmt:
@@ -180,13 +269,15 @@ func (ex *Exec) stmt1(st *State, s ast.Stmt, label string) []flow {
 		}
 		return normal(st)
 	case *ast.IfStmt:
-		return ex.ifStmt(st, s)
+		n := len(st.pc)
+		return ex.mergeNormals(n, ex.ifStmt(st, s))
 	case *ast.ForStmt:
 		return ex.forStmt(st, s, label)
 	case *ast.RangeStmt:
 		return ex.rangeStmt(st, s, label)
 	case *ast.SwitchStmt:
-		return ex.switchStmt(st, s, label)
+		n := len(st.pc)
+		return ex.mergeNormals(n, ex.switchStmt(st, s, label))
 	case *ast.TypeSwitchStmt:
 		ex.unsupported(s.Pos(), "type switch (all cases explored with opaque bindings)")
 		var out []flow
@@ -357,6 +448,17 @@ func (ex *Exec) assignStmt(st *State, s *ast.AssignStmt) {
 // assign stores v into the location denoted by lhs.
 func (ex *Exec) assign(st *State, lhs ast.Expr, v *Val, define bool) {
 	lhs = ast.Unparen(lhs)
+	ex.assign1(st, lhs, v, define)
+	if ex.FSpec != nil && ex.hookDepth == 0 && !ex.inSpec() {
+		hv := v
+		if t := ex.typeOf(lhs); t != nil && hv != nil {
+			hv = ex.coerce(st, hv, t)
+		}
+		ex.runHooks(st, "assign", exprText(lhs), []*Val{hv}, nil, lhs.Pos())
+	}
+}
+
+func (ex *Exec) assign1(st *State, lhs ast.Expr, v *Val, define bool) {
 	switch l := lhs.(type) {
 	case *ast.Ident:
 		if l.Name == "_" {
@@ -595,6 +697,24 @@ func (ex *Exec) switchStmt(st *State, s *ast.SwitchStmt, label string) []flow {
 
 func (ex *Exec) selectStmt(st *State, s *ast.SelectStmt, label string) []flow {
 	n := len(s.Body.List)
+	hasDone := false
+	for _, c := range s.Body.List {
+		cc := c.(*ast.CommClause)
+		if cc.Comm == nil {
+			hasDone = true // default arm: never blocks
+			continue
+		}
+		ast.Inspect(cc.Comm, func(x ast.Node) bool {
+			if call, ok := x.(*ast.CallExpr); ok {
+				if fn := ex.calleeOf(call); fn != nil && calleeKey(fn) == "context.Context.Done" {
+					hasDone = true
+				}
+			}
+			return true
+		})
+	}
+	saveSel := ex.selHasDone
+	defer func() { ex.selHasDone = saveSel }()
 	choice := ex.fresh("select", SInt)
 	st.assume(and(ge(choice, intLit(0)), lt(choice, intLit(int64(n)))))
 	var out []flow
@@ -609,7 +729,9 @@ func (ex *Exec) selectStmt(st *State, s *ast.SelectStmt, label string) []flow {
 		b.path = append(b.path, fmt.Sprintf("sel%d", i))
 		var fl []flow
 		if cc.Comm != nil {
+			ex.selHasDone = &hasDone
 			fl = ex.stmt(b, cc.Comm, "")
+			ex.selHasDone = nil
 		} else {
 			fl = normal(b)
 		}
